@@ -625,8 +625,14 @@ def run(cx, rep):
     disc_schema_table_rule(cx, rep, "C02.12")
 
 
-def disc_schema_table_rule(cx, rep, rid):
-    """schema() of a discriminated union prints `oneOf` with one branch per discriminator KEY, taken from the last
+def disc_schema_table_rule(cx, rep, rid, which="schema"):
+    """which="validator" (C04.12, guards fix 3755d7e): the same necessary condition on the VALIDATOR table (the argument
+    before the schema table).  An entry that lists several variants is printed as their union; unless those variants are
+    narrowed to the key, a variant carrying other literals too makes that union a discriminated union over the same
+    variants again and the printer rebuilds it until the stack overflows (valid, non-recursive input).  There the
+    narrowing may be conditional (it is needed only when several variants are listed), so only its existence is decided.
+
+    schema() of a discriminated union prints `oneOf` with one branch per discriminator KEY, taken from the last
     constructor argument (the schema table the compiler emits).  A variant that carries several literals is listed
     under each of them; unless the compiler narrows the variant's discriminator to the key of the entry, the branches
     of those keys are the same schema and every value of the variant matches two of them: `oneOf` rejects what
@@ -637,8 +643,8 @@ def disc_schema_table_rule(cx, rep, rid):
     F = cx.rs
     owner_of = {}
 
-    def builds_const_from_var(root, crate, owner=None):
-        seen = set()
+    def builds_const_from_var(root, crate, owner=None, own_gid=None):
+        seen = {own_gid}     # the table builder is not searched again through the printer's own recursion
         stack = [(root, owner)]
         while stack:
             r, own_ = stack.pop()
@@ -717,7 +723,9 @@ def disc_schema_table_rule(cx, rep, rid):
             if not elems:
                 continue
             n += 1
-            last = elems[-1]
+            if which == "validator" and len(elems) < 2:
+                continue
+            last = elems[-1] if which == "schema" else elems[-2]
             roots = [last]
             lids = {p.get("lid") for p in RF.walk(last) if p["k"] == "Path" and p.get("res") == "local"}
             for st in RF.walk(body):
@@ -725,7 +733,12 @@ def disc_schema_table_rule(cx, rep, rid):
                     roots.append(st["init"])
             hit = None
             for r in roots:
-                hit = hit or builds_const_from_var(r, f.crate, F.hir[g])
+                hit = hit or builds_const_from_var(r, f.crate, F.hir[g], g)
+            if which == "validator":
+                rep.ob(rid, "%s/validator-table-narrowed" % f.id.rsplit("::", 1)[-1], hit is not None,
+                       "%s passes a validator table to AnyOfDiscriminatedRuntype whose entries are never narrowed to their key (no Runtype is constructed from the key string): for `{kind: 'pet' | 'cat'; a: string} | {kind: 'pet'; b: number}` the entry of 'pet' is the union of both variants unchanged, which is dispatched on `kind` again with the same two carriers - the printer re-enters itself until the stack overflows on valid, non-recursive input" % f.id,
+                       "%s:%s" % (f.file, call["line"]), sample={"fn": f.id, "narrowing_call": (hit or {}).get("callee") or (hit or {}).get("resolved"), "line": (hit or {}).get("line")})
+                continue
             if hit is not None:
                 otree = owner_of.get(id(hit))
                 flags = flag_guards(hit, otree)
